@@ -97,7 +97,7 @@ PROPS = {
         'trusted': ['harness/wire_runner.go', 'server/verif_hooks.go VerifAdvance'],
     },
     'C01': {
-        'suites': [('w_c01', 300, 12000)],
+        'suites': [('w_c01', 300, 12000), ('wv', 200, 8000)],
         'rule': 'w_c01: 2-4 clients (v3.1/3.1.1/5) stay connected; SUBSCRIBE/re-SUBSCRIBE/UNSUBSCRIBE over 23 non-shared filters with every QoS x NoLocal x RAP x RetainHandling x subscription id; publishes over 13 topics '
                 '(QoS 0-2, RETAIN, empty and long payloads, v5 properties, inbound aliases, id reuse, retransmissions), api_publish, correct acks only or no acks (windows fill), both delivery modes, OnSubscribe hook in 1/4; '
                 'oracle: every received PUBLISH is a due copy (topic, payload, properties, QoS = min, RETAIN = published and RAP, subscription ids as a set, DUP 0), one copy per matching subscription (overlap) / one at the highest QoS (onlyonce), '
